@@ -404,6 +404,9 @@ Section PlainStmt.
   Lemma aplp_dim : aplp (an_dim fuel nest).
   Proof. unfold an_dim. pwalk leaf. Qed.
 
+  Lemma aplp_input : aplp (an_input fuel nest).
+  Proof. unfold an_input. pwalk leaf. Qed.
+
   Lemma aplp_read : aplp (an_read fuel nest).
   Proof.
     unfold an_read.
@@ -465,14 +468,14 @@ Section PlainStmt.
   (* every statement head but IF, DEF, INPUT and ":" *)
   Definition plain_head (t : option token) : bool :=
     match t with
-    | Some (TIf | TDef | TInput | TColon | TElse) => false
+    | Some (TIf | TDef | TColon | TElse) => false
     | _ => true
     end.
 
   Lemma aplp_dispatch arec t : plain_head t = true -> aplp (adispatch fuel nest arec t).
   Proof.
     intros H. destruct t as [t|]; [destruct t; try discriminate H|]; cbn [adispatch];
-      first [ apply apl_ret | apply apl_fail | apply aplp_dim | apply aplp_print | apply aplp_goto_or_gosub | apply aplp_for
+      first [ apply apl_ret | apply apl_fail | apply aplp_dim | apply aplp_input | apply aplp_print | apply aplp_goto_or_gosub | apply aplp_for
             | apply aplp_next | apply aplp_read | apply aplp_let | apply aplp_assignment
             | pwalk leaf ].
   Qed.
